@@ -49,19 +49,33 @@ def number_table(text):
     return out
 
 
-def tree_dump(node):
-    if len(node.children) == 0:
-        if isinstance(node.value, PDDLFunction):
-            return ["fl", node.value.name, list(node.value.signature.keys())]
-        return ["num", float(node.value).hex()]
-    return ["op", node.value, tree_dump(node.children[0]), tree_dump(node.children[1])]
-
-
 def fluent_atom(fl):
     """the atom PDDLFunction.state_representation prints: '(= (f a b) v)' -> [f, [a, b]]"""
     toks = fl.state_representation.replace("(", " ").replace(")", " ").split()
     assert toks[0] == "=" and toks[1] == fl.name, toks
     return [fl.name, toks[2:-1]]
+
+
+def tree_dump(node):
+    """a numeric goal, node by node; a fluent leaf as the library itself presents it (state_representation, which reads
+    signature AND repeating_variables: on a leaf the latter is empty, so these are the signature's keys)"""
+    if len(node.children) == 0:
+        if isinstance(node.value, PDDLFunction):
+            return ["fl"] + fluent_atom(node.value)
+        return ["num", float(node.value).hex()]
+    return ["op", node.value, tree_dump(node.children[0]), tree_dump(node.children[1])]
+
+
+def functions_presentation(domain):
+    """how the Domain object presents its functions (parsing a problem must not change it)"""
+    out = []
+    for n, f in domain.functions.items():
+        try:
+            out.append([n, str(f), f.state_representation, f.state_typed_representation,
+                        sorted(f.repeating_variables.items())])
+        except Exception as e:  # noqa
+            out.append([n, "raised " + type(e).__name__])
+    return out
 
 
 def problem_dump(problem):
@@ -112,6 +126,10 @@ def world(job):
     except Exception as e:  # noqa
         return {"domain_raised": exc(e)}
     out["vocab"] = vocab(domain)
+    presented = functions_presentation(domain)
+    if any(len(row) == 5 and row[4] for row in presented):
+        # a freshly parsed domain whose functions already carry repeated arguments: left behind by an earlier parse
+        out["domain_changed"] = {"after_problem_index": -1, "before": "a freshly parsed Domain", "after": presented}
     res = []
     for pr in job["problems"]:
         text = Path(pr["path"]).read_text() if isinstance(pr, dict) else pr
@@ -124,6 +142,9 @@ def world(job):
             r.update(exc(e))
         except Exception as e:  # noqa
             r.update(exc(e))
+        now = functions_presentation(domain)
+        if now != presented and "domain_changed" not in out:
+            out["domain_changed"] = {"after_problem_index": len(res), "before": presented, "after": now}
         res.append(r)
     out["results"] = res
     return out
